@@ -5,7 +5,7 @@
    emulator (known findings D3/D4): the supplied bytes are run through an overlay at PC, so RST/CALL push PC + length.
    The whole-program statement (same final registers/flags/IFF/memory for every injection point) is the experiment
    of checks/c07.py on the real code. *)
-From Z80V Require Import Proofs.SpecFacts.
+From Z80V Require Import Proofs.SpecFacts Proofs.RoundTrip Proofs.Iter.
 
 Theorem C07_tie : forall cpu, WF cpu -> Step cpu = spec_step impl_unspec cpu.
 Proof. exact Step_ok. Qed.
@@ -47,3 +47,48 @@ Theorem C07_mode0_resume_address_refuted :
   g_PC cpu' = 56 /\ mk16 (u8 (ram (g_W cpu') 36863)) (u8 (ram (g_W cpu') 36862)) = 257 /\ g_PC im0_witness = 256.
 Proof. split; [|vm_compute; repeat split]. cbv [WF WF_gpr WF_reg WF_mem WF_irq im0_witness cpu0]; cbv_struct; unfold is8, is16; repeat split; try lia; repeat constructor; lia. Qed.
 Print Assumptions C07_mode0_resume_address_refuted.
+
+(* ---- the whole round trip, for the GENERATED Step (iter n = n calls of Step) ----
+   NMI accepted at a boundary, handler RETN at 0066h: two Steps later every register, flag, index register, SP and PC
+   of the interrupted program is back; IFF1 is the IFF1 before the NMI; the only traces are the two bytes below SP,
+   R (+2) and IFF2. *)
+Theorem C07_nmi_round_trip : forall cpu dat, WF cpu -> g_Memory cpu = UserMem ->
+  g_Interrupt cpu = Some (mk_Interrupt 0 dat) ->
+  let sp2 := u16 (g_SP cpu - 2) in let sp1 := u16 (sp2 + 1) in
+  u8 (ram (g_W cpu) 102) = 237 -> u8 (ram (g_W cpu) 103) = 69 ->
+  sp2 <> 102 -> sp2 <> 103 -> sp1 <> 102 -> sp1 <> 103 ->
+  let cpu' := iter 2 cpu in
+  g_GPR cpu' = g_GPR cpu /\ g_Alternate cpu' = g_Alternate cpu /\ g_IX cpu' = g_IX cpu /\ g_IY cpu' = g_IY cpu /\
+  g_SP cpu' = g_SP cpu /\ g_PC cpu' = g_PC cpu /\ g_IFF1 cpu' = g_IFF1 cpu /\ g_IFF2 cpu' = g_IFF1 cpu /\
+  g_IM cpu' = g_IM cpu /\ g_IR_Hi cpu' = g_IR_Hi cpu /\ g_IR_Lo cpu' = r_tick (r_tick (g_IR_Lo cpu)) /\
+  g_Interrupt cpu' = None /\
+  ram (g_W cpu') = upd (upd (ram (g_W cpu)) sp2 (lo (g_PC cpu))) sp1 (hi (g_PC cpu)).
+Proof. intros cpu dat H. cbv zeta. rewrite iter_ok by exact H. exact (nmi_round_trip impl_unspec cpu dat H). Qed.
+Print Assumptions C07_nmi_round_trip.
+(* mode 1, handler EI ; RETI at 0038h: three Steps *)
+Theorem C07_im1_round_trip : forall cpu dat, WF cpu -> g_Memory cpu = UserMem ->
+  g_Interrupt cpu = Some (mk_Interrupt 1 dat) -> g_IFF1 cpu = true -> g_IM cpu = 1 ->
+  let sp2 := u16 (g_SP cpu - 2) in let sp1 := u16 (sp2 + 1) in
+  u8 (ram (g_W cpu) 56) = 251 -> u8 (ram (g_W cpu) 57) = 237 -> u8 (ram (g_W cpu) 58) = 77 ->
+  sp2 <> 56 -> sp2 <> 57 -> sp2 <> 58 -> sp1 <> 56 -> sp1 <> 57 -> sp1 <> 58 ->
+  let cpu' := iter 3 cpu in
+  g_GPR cpu' = g_GPR cpu /\ g_Alternate cpu' = g_Alternate cpu /\ g_IX cpu' = g_IX cpu /\ g_IY cpu' = g_IY cpu /\
+  g_SP cpu' = g_SP cpu /\ g_PC cpu' = g_PC cpu /\ g_IFF1 cpu' = true /\ g_IFF2 cpu' = true /\
+  g_IM cpu' = g_IM cpu /\ g_IR_Hi cpu' = g_IR_Hi cpu /\ g_IR_Lo cpu' = r_tick (r_tick (r_tick (g_IR_Lo cpu))) /\
+  g_Interrupt cpu' = None /\
+  ram (g_W cpu') = upd (upd (ram (g_W cpu)) sp2 (lo (g_PC cpu))) sp1 (hi (g_PC cpu)).
+Proof. intros cpu dat H. cbv zeta. rewrite iter_ok by exact H. exact (im1_round_trip impl_unspec cpu dat H). Qed.
+Print Assumptions C07_im1_round_trip.
+(* the premises are satisfiable *)
+Definition nmi_demo : CPU :=
+  s_Interrupt (s_W (s_SP (s_PC cpu0 4660) 36864) (mk_World (fun a => if a =? 102 then 237 else if a =? 103 then 69 else 0) [] []))
+              (Some (mk_Interrupt 0 [])).
+Example C07_premises_hold :
+  WF nmi_demo /\ g_Memory nmi_demo = UserMem /\ g_Interrupt nmi_demo = Some (mk_Interrupt 0 []) /\
+  u8 (ram (g_W nmi_demo) 102) = 237 /\ u8 (ram (g_W nmi_demo) 103) = 69 /\
+  u16 (g_SP nmi_demo - 2) <> 102 /\ u16 (u16 (g_SP nmi_demo - 2) + 1) <> 103.
+Proof.
+  split.
+  - cbv [WF WF_gpr WF_reg WF_mem WF_irq nmi_demo cpu0]; cbv_struct; unfold is8, is16; repeat split; try lia; constructor.
+  - repeat split; try reflexivity; vm_compute; discriminate.
+Qed.
